@@ -23,6 +23,7 @@ type c08Suffix struct {
 	subs    [][]string
 	intExts []InternalSpec
 	delay   time.Duration
+	extLag  time.Duration // the suffix's extensions take this long before each further poll
 	agent   string
 }
 
@@ -52,6 +53,7 @@ func scenC08(r *Run, job *Job) {
 	}
 	suf.delay = []time.Duration{0, 0, time.Second, 3 * time.Second}[t.Draw(4)]
 	suf.agent = []string{"sim-runtime/1.0", "aws-lambda-sim/2 (feat)"}[t.Draw(2)]
+	suf.extLag = []time.Duration{0, 300 * time.Millisecond}[t.Draw(2)]
 	// ---- prefix description (only pass 1 acts on it, but both passes draw it) ----
 	nP := 1 + t.Draw(3)
 	pModes := make([]string, nP)
@@ -63,6 +65,10 @@ func scenC08(r *Run, job *Job) {
 		pSubs[i] = extSubSets[t.Draw(len(extSubSets))]
 	}
 	pShut := []string{"", "", "exit1", "exiterror", "ignore"}[t.Draw(5)] // how the prefix's extensions take SHUTDOWN
+	// a survivor: the first extension of the prefix outlives SIGKILL for longer than any reset waits (9 s + 2 s) and goes on
+	// using the Extensions API with the identifier it was given, while the next generation is already serving
+	survivor := t.Chance(1, 4)
+	survivorPause := t.Draw(3)
 	pInt := t.Chance(1, 3)
 	pAgent := []string{"sim-runtime/1.0", strings.Repeat("very-long-user-agent-", 12) + " (a b c)"}[t.Draw(2)]
 	reNum := []int{0, 1, 1}[t.Draw(3)]
@@ -85,8 +91,9 @@ func scenC08(r *Run, job *Job) {
 	trivial := r.Pass == 2
 	if trivial {
 		pModes, pSubs, pInt, pAgent, reNum, evLat, killLat, holdSite, pShut = []string{"ok", "explicit"}, suf.subs, false, suf.agent, 0, 0, 0, "", ""
+		survivor = false
 	}
-	r.Desc = fmt.Sprintf("C08 T=%ds exts=%d prefix=%v pSubs=%v pInt=%v pShut=%q evLat=%s killLat=%s hold=%q/%d/%d reorder=%d/4 | suffix=%v subs=%v int=%d delay=%s", timeoutSec, nExt, pModes, pSubs, pInt, pShut, evLat, killLat, holdSite, holdNth, holdSteps, reNum, suf.modes, suf.subs, len(suf.intExts), suf.delay)
+	r.Desc = fmt.Sprintf("C08 T=%ds exts=%d prefix=%v pSubs=%v pInt=%v pShut=%q survivor=%v evLat=%s killLat=%s hold=%q/%d/%d reorder=%d/4 | suffix=%v subs=%v int=%d delay=%s extLag=%s", timeoutSec, nExt, pModes, pSubs, pInt, pShut, survivor, evLat, killLat, holdSite, holdNth, holdSteps, reNum, suf.modes, suf.subs, len(suf.intExts), suf.delay, suf.extLag)
 	if r.Pass == 1 {
 		r.Logf("%s", r.Desc)
 	} else {
@@ -100,6 +107,9 @@ func scenC08(r *Run, job *Job) {
 	w := r.NewWorld(WorldCfg{TimeoutSec: timeoutSec, ExtFiles: ExtFiles(exts)}, job.Seed)
 	e := w.NewEngine()
 	e.Bound = time.Duration((nP+nS+2)*(timeoutSec+10)) * time.Second
+	if survivor {
+		e.Bound += time.Duration(nP+2) * 30 * time.Second
+	}
 	inSuffix := false
 	sufStart := 0 // number of invocations made before the suffix
 	var planModes []string
@@ -155,9 +165,16 @@ func scenC08(r *Run, job *Job) {
 		fmt.Sscanf(p.ExtName, "e%d", &idx)
 		if inSuffix {
 			b.Subs = suf.subs[idx-1]
+			if suf.extLag > 0 {
+				b.Stalls = map[int]time.Duration{2: suf.extLag, 3: suf.extLag, 4: suf.extLag, 5: suf.extLag}
+			}
 		} else {
 			b.Subs = pSubs[idx-1]
 			b.OnShutdown = pShut
+			if survivor && idx == 1 {
+				b.KillLatency = 25 * time.Second // the supervisor call gives up after 9 s, the wait for the exit after 2 more
+				b.OnShutdown = []string{"poll", "ignore", "ignore"}[survivorPause] // keeps polling after SHUTDOWN, or sits still until the suffix
+			}
 			for i, m := range planModes {
 				if m == "extcrash" && idx == 1 {
 					b.DieDuringInv = i + 1
@@ -258,7 +275,40 @@ func scenC08(r *Run, job *Job) {
 		e.Plan = append(e.Plan, InvSpec{Payload: Tagged(fmt.Sprintf("suf%d", i+1), 16)})
 	}
 	e.lastDone = r.Now()
+	if survivor {
+		// the survivor of the prefix uses its old identifier once more, at a moment when nothing else is going on
+		// in the suffix (the runtime works, or the extensions take their time)
+		polled := false
+		e.Extra = func() []action {
+			if polled {
+				return nil
+			}
+			busy := false
+			for _, inv := range w.Invokes[sufStart:] {
+				if inv.Dispatched && !inv.Call.Done {
+					busy = true
+				}
+			}
+			if !busy {
+				return nil
+			}
+			for _, a := range e.Actors() {
+				a := a
+				if !a.IsRT && !a.Internal && a.ExtName == "e1" && a.P.ExecStep <= step0 && a.P.Alive && !a.Busy() && a.ExtID != "" {
+					return []action{{"survivor poll " + a.Who, func() {
+						polled = true
+						r.NextStep()
+						r.Fault("survivor-poll-with-old-identifier")
+						a.ExtNext()
+						r.Settle()
+					}}}
+				}
+			}
+			return nil
+		}
+	}
 	e.Run()
+	e.Extra = nil
 	// classification for the known-findings file: a request of a prefix process was still being handled (goroutine held
 	// inside the API server) when that process died and the reset completed
 	if r.Pass == 1 {
